@@ -42,7 +42,8 @@ POOL = ["t", "e", "r", "c", "l", "i", "o", "n", "X", "x", "XX", "X_", "Xc", "cX"
         "cent", "enter", "inn", "outerY", "rightmost", "leftover", "Center", "LEFT", "Inner", "aaaaaaaaaaaa", "lon",
         "longitude", "lat", "la", "dummy", "xdummy", "ydummy", "temp_unique", "temp_dim_target",
         "face", "axis", "dims", "Z", "z", "zz", "k", "K", "depth", "dept", "epth", "Y", "y",
-        "y_c", "x_c", "x_l", "outer_", "_left", "right_x", "s", "rho", "dens", "T", "temp", "q", "lev", "sigma"]
+        "y_c", "x_c", "x_l", "outer_", "_left", "right_x", "s", "rho", "dens", "T", "temp", "q", "lev", "sigma",
+        "winner", "router", "x_inner", "uncentered", "lat_", "Lat", "LAT", "eta", "ETA", "Eta"]
 
 
 def nontrivial(case, obs):
@@ -281,6 +282,29 @@ def run_other(case):
         ok = {rho.get(a, a): {p: rho.get(d, d) for p, d in cs.items()} for a, cs in a1.items()} == a2
         ok = ok and [rho.get(d, d) for d in d1] == d2 and v1 == v2
         return {"same": bool(ok), "detail": [a1, a2]}
+    if o["what"] == "overlap_ufunc":
+        from xgcm.grid_ufunc import apply_as_grid_ufunc
+
+        def build(m):
+            n = lambda s: m.get(s, s)
+            ds = xr.Dataset(coords={n("xc"): np.arange(6.), n("xl"): np.arange(6.) - .5})
+            g = Grid(ds, coords={n("X"): {"center": n("xc"), "left": n("xl")}}, periodic=False,
+                     autoparse_metadata=False)
+            da = xr.DataArray((np.arange(12.) * 5 % 7).reshape(2, 6), dims=[n("t"), n("xc")]).chunk({n("xc"): 3})
+            d = n("D")
+            r = apply_as_grid_ufunc(lambda a: a[..., 1:] - a[..., :-1], da, axis=[(n("X"),)], grid=g,
+                                    signature=f"({d}:center)->({d}:left)", boundary_width={d: (1, 0)},
+                                    boundary="extend", dask="allowed", map_overlap=True)
+            return list(r.dims), r.compute().values.ravel().tolist()
+        try:
+            d1, v1 = build({})
+        except Exception as e:
+            return {"same": False, "detail": f"original raised {type(e).__name__}: {e}"[:200]}
+        try:
+            d2, v2 = build(rho)
+        except Exception as e:
+            return {"same": False, "detail": f"renamed raised {type(e).__name__}: {e}"[:200]}
+        return {"same": [rho.get(d, d) for d in d1] == d2 and v1 == v2, "detail": [d1, d2]}
     if o["what"] == "metrics":
         def build(m):
             n = lambda s: m.get(s, s)
@@ -357,7 +381,7 @@ def generate(rng, tier):
             names = ["zc", "zo", "x", "t", "Z", o["da_name"], o["td_name"], o["tname"]]
             cases.append({"kind": "transform", "rho": make_rho(rng, names), "orig": o})
         else:
-            w = rng.choice(["signature", "comodo", "metrics"])
+            w = rng.choice(["signature", "comodo", "metrics", "overlap_ufunc"])
             if w == "signature":
                 names = rng.sample(["X", "Y", "Z", "lon"], rng.randint(1, 3))
                 mk = lambda: [[rng.choice(names), rng.choice(G.POS)] for _ in range(rng.randint(0, 2))]
@@ -368,6 +392,17 @@ def generate(rng, tier):
                 axes = rng.sample(["X", "Y", "Z"], rng.randint(1, 3))
                 o = {"what": w, "axes": [[a, rng.randint(2, 4)] for a in axes]}
                 rho = make_rho(rng, axes + [a.lower() + s for a in axes for s in "cl"] + ["data"])
+                if len(axes) >= 2 and rng.random() < 0.5:
+                    # two axes whose names differ in case only
+                    a, b = rng.choice([("lat", "Lat"), ("x", "X"), ("ETA", "eta"), ("k", "K")])
+                    for nm_ in list(rho):
+                        if rho[nm_] in (a, b) and nm_ not in axes[:2]:
+                            rho[nm_] = rho[nm_] + "_"
+                    rho[axes[0]], rho[axes[1]] = a, b
+            elif w == "overlap_ufunc":
+                o = {"what": w}
+                rho = make_rho(rng, ["X", "xc", "xl", "t"])
+                rho["D"] = rng.choice(["winner", "router", "x_inner", "outerY", "q", "Outer", "in", "uncentered"])
             else:
                 o = {"what": w, "axes": rng.sample(["X", "Y"], rng.randint(1, 2)), "with_area": rng.random() < 0.5,
                      "as_str": rng.random() < 0.5}
